@@ -357,8 +357,49 @@ def _is_identity(v, key):
         return False
     if not locs:
         return False
-    return all(k[:3] == key[:3] and (k[3] == key[3] or k[3].startswith(key[3] + '.') or key[3] == '') for k in locs) \
-        and not (_consts(v) - {"'nullopt'", "'default'"})
+    if not (all(k[:3] == key[:3] and (k[3] == key[3] or k[3].startswith(key[3] + '.') or key[3] == '') for k in locs)
+            and not (_consts(v) - {"'nullopt'", "'default'"})):
+        return False
+    # "stored back unchanged" means the value read travels to the write as it is: a value that went through a
+    # conversion (a repository function that computes its result: resampling, re-quantising, re-deriving) is a new
+    # value even when its only storage input is the location itself - what else it depends on (sizes, other
+    # fields consulted inside the callee) is exactly what the term does not show
+    return _plain_copy(v)
+
+
+def _plain_copy(t, depth=0):
+    """The term is the stored value itself, carried to the write by copies only: a location; a call whose inlined
+    result is such a value (table getters, column readers - followed through what they return, not by name); a
+    merge whose other alternatives are the absent constants; a member selection; a std helper that passes its
+    argument through.  Anything that computes (an operator, a constructor, a container rebuilt element by element,
+    an unknown) makes a new value."""
+    if not isinstance(t, tuple) or not t or depth > 40:
+        return False
+    k = t[0]
+    if k == 'loc':
+        return True
+    if k in ('call', 'callm'):
+        inl = t[3] if len(t) > 3 else None
+        if isinstance(inl, tuple) and inl:
+            return _plain_copy(inl, depth + 1)
+        if str(t[1]).split('::')[-1] in vf.TRANSPARENT_CALLS and t[2]:
+            return all(_plain_copy(a, depth + 1) for a in t[2] if isinstance(a, tuple))
+        return False
+    if k == 'phi':
+        # alternatives that carry no stored value and no argument (the absent constants, a default-constructed
+        # object for a missing row) are not provenance
+        alts = [a for a in t[1] if isinstance(a, tuple) and any(x[0] in ('loc', 'in') for x in vf.leaves(a))]
+        return bool(alts) and all(_plain_copy(a, depth + 1) for a in alts)
+    if k == 'mem':
+        return _plain_copy(t[1], depth + 1)
+    if k == 'op':
+        return str(t[1]) in vf.TRANSPARENT_CALLS and bool(t[2]) and all(_plain_copy(a, depth + 1) for a in t[2])
+    if k == 'ite':
+        return _plain_copy(t[2], depth + 1) and (_plain_copy(t[3], depth + 1) or
+                                                 (isinstance(t[3], tuple) and t[3] and t[3][0] == 'const'))
+    if k == 'guard':
+        return _plain_copy(t[3], depth + 1)
+    return False
 
 
 def _row_scope(prog, cg, eff, chk, S3):
